@@ -76,6 +76,55 @@ def writeDie (d : DieObj α) : YVal α × DieObj α :=
     ++ (if regions.isEmpty then [] else [(.str "regions", .seq regions)])
   (.map data, d)
 
+/-! #### the die writer over a store of Python list objects
+
+  `Die.write_yaml` reads `self.blockages + self.specialized_regions`: `+` on lists builds a NEW list object.  To make
+  "the writer does not alter the die" a statement with content, the two region lists live in a store of list objects and
+  the writer is a program on that store; the in-place variant (`rectangles = self.blockages; rectangles += …`) is a
+  different program (`writeDieAliasedS`) that does alter the die. -/
+
+/-- a store of Python `list` objects, addressed by position. -/
+structure Store (β : Type) where
+  cells : List (List β)
+  deriving Inhabited
+
+def Store.get {β : Type} (s : Store β) (a : Nat) : List β := s.cells.getD a []
+
+/-- a new list object. -/
+def Store.alloc {β : Type} (s : Store β) (l : List β) : Store β × Nat := ({ cells := s.cells ++ [l] }, s.cells.length)
+
+/-- `x + y` on lists: a new object holding the concatenation. -/
+def pyListAdd {β : Type} (s : Store β) (x y : Nat) : Store β × Nat := s.alloc (s.get x ++ s.get y)
+
+/-- `x += y` on lists: `x` itself is extended (and stays the value of the variable). -/
+def pyListIAdd {β : Type} (s : Store β) (x y : Nat) : Store β × Nat :=
+  ({ cells := s.cells.set x (s.get x ++ s.get y) }, x)
+
+/-- a `Die` whose two region lists are objects of the store. -/
+structure DieRef (α : Type) where
+  width : Num α
+  height : Num α
+  blockages : Nat
+  specialised : Nat
+
+def DieRef.deref (s : Store (VRect α)) (d : DieRef α) : DieObj α :=
+  { width := d.width, height := d.height, blockages := s.get d.blockages, specialised := s.get d.specialised }
+
+def dieTree (width height : Num α) (rects : List (VRect α)) : YVal α :=
+  .map ([(.str "width", YVal.ofNum width), (.str "height", YVal.ofNum height)]
+    ++ (if (rects.map VRect.toY).isEmpty then [] else [(.str "regions", .seq (rects.map VRect.toY))]))
+
+/-- `Die.write_yaml` as a program on the store: `for r in self.blockages + self.specialized_regions`. -/
+def writeDieS (s : Store (VRect α)) (d : DieRef α) : YVal α × Store (VRect α) :=
+  let r := pyListAdd s d.blockages d.specialised
+  (dieTree d.width d.height (r.1.get r.2), r.1)
+
+/-- the variant `rectangles = self.blockages; rectangles += self.specialized_regions` (NOT the code; kept to show that
+    the store model tells the two apart). -/
+def writeDieAliasedS (s : Store (VRect α)) (d : DieRef α) : YVal α × Store (VRect α) :=
+  let r := pyListIAdd s d.blockages d.specialised
+  (dieTree d.width d.height (r.1.get r.2), r.1)
+
 inductive DErr | root | key | dup | missing | size | regions | rect
   deriving DecidableEq, Repr, Inhabited
 
@@ -415,11 +464,11 @@ def fsBlockInfo (b : FsBlock α) : YVal α :=
     let c := fsCentroid b.rects
     .map [rects, (.str "area", .float b.area), (.str "center", .seq [.float c.1, .float c.2])]
 
-/-- Python `max(...)` over a non-empty sequence (first maximal element). -/
-def maxOf (l : List α) : α :=
+/-- Python `max(...)` of a sequence (first maximal element); `none` = the `ValueError` on an empty sequence. -/
+def maxOf? (l : List α) : Option α :=
   match l with
-  | [] => zero
-  | x :: xs => xs.foldl pyMax x
+  | [] => none
+  | x :: xs => some (xs.foldl pyMax x)
 
 /-- `EPSILON = 1e-3` is a parameter `eps`. REPAIRED pin placement: border pins move inwards by `eps`. -/
 def fsPinCoord (eps shape p : α) : α :=
@@ -435,13 +484,21 @@ def termName (i : Nat) : String := "T" ++ toString i
 
 def enum {β : Type} (l : List β) : List (Nat × β) := (List.range l.length).zip l
 
-/-- `_parse_modules`: the `_modules` dictionary and the die shape. -/
-def fsModules (eps : α) (f : FsInst α) : Dict α × α × α :=
-  let shapeX := maxOf (f.pins.map (·.1))
-  let shapeY := maxOf (f.pins.map (·.2))
+/-- exceptions of the converter other than `AssertionError`. -/
+inductive FsErr | valueError
+  deriving DecidableEq, Repr, Inhabited
+
+/-- the `_modules` dictionary `_parse_modules` builds once the die shape `(shapeX, shapeY)` is known. -/
+def fsModulesAt (eps shapeX shapeY : α) (f : FsInst α) : Dict α :=
   let d1 := dictUpdate [] ((enum f.blocks).map fun ib => (modName ib.1, fsBlockInfo ib.2))
-  let d2 := dictUpdate d1 ((enum f.pins).map fun ip => (termName ip.1, fsPinInfo eps shapeX shapeY f.terminalsAsModules ip.2))
-  (d2, shapeX, shapeY)
+  dictUpdate d1 ((enum f.pins).map fun ip => (termName ip.1, fsPinInfo eps shapeX shapeY f.terminalsAsModules ip.2))
+
+/-- the die shape: `max(p[0] for p in pins_pos)`, `max(p[1] for p in pins_pos)`; an instance without pins raises
+    `ValueError` (`max()` of an empty sequence). -/
+def fsShape (f : FsInst α) : Except FsErr (α × α) :=
+  match maxOf? (f.pins.map (·.1)), maxOf? (f.pins.map (·.2)) with
+  | some sx, some sy => .ok (sx, sy)
+  | _, _ => .error .valueError
 
 /-- `weight = wei if wei > 0 else 1` with `wei = float(w * alpha)`. -/
 def fsWeight (alpha w : α) : Num α := if (zero : α) < w * alpha then .f (w * alpha) else .i 1
@@ -451,15 +508,21 @@ def fsNets (f : FsInst α) : List (NEdge α) :=
   (f.b2b.map fun e => { modules := [.str (modName e.1), .str (modName e.2.1)], weight := fsWeight f.alpha e.2.2 })
   ++ (f.p2b.map fun e => { modules := [.str (termName e.1), .str (modName e.2.1)], weight := fsWeight f.alpha e.2.2 })
 
-/-- `write_yaml_FPEF` (tree) and the nets as the call leaves them. -/
-def writeFPEF (eps : α) (f : FsInst α) : YVal α × List (NEdge α) :=
-  let r := dumpNamedEdges (fsNets f)
-  (.map [(.str "Modules", (fsModules eps f).1.toY), (.str "Nets", r.1)], r.2)
+/-- the FPEF document of an instance whose die shape is `(shapeX, shapeY)`. -/
+def fpefTree (eps shapeX shapeY : α) (f : FsInst α) : YVal α :=
+  .map [(.str "Modules", (fsModulesAt eps shapeX shapeY f).toY), (.str "Nets", (dumpNamedEdges (fsNets f)).1)]
 
-/-- `write_yaml_DIEF`. -/
-def writeDIEF (eps : α) (f : FsInst α) : YVal α :=
-  let m := fsModules eps f
-  .map [(.str "width", .float m.2.1), (.str "height", .float m.2.2)]
+/-- `FloorSetInstance(...)` then `write_yaml_FPEF()`: the tree, and the nets as the call leaves them. -/
+def writeFPEF (eps : α) (f : FsInst α) : Except FsErr (YVal α × List (NEdge α)) :=
+  match fsShape f with
+  | .error e => .error e
+  | .ok s => .ok (fpefTree eps s.1 s.2 f, (dumpNamedEdges (fsNets f)).2)
+
+/-- `FloorSetInstance(...)` then `write_yaml_DIEF()`. -/
+def writeDIEF (f : FsInst α) : Except FsErr (YVal α) :=
+  match fsShape f with
+  | .error e => .error e
+  | .ok s => .ok (.map [(.str "width", .float s.1), (.str "height", .float s.2)])
 
 end fs
 
